@@ -93,6 +93,22 @@ def rcGen (cast : Nat → α) (hist : List Nat) : α :=
   let maxt := lastNonzero hist
   rcLoop cast cum rcum fm rfm maxt (List.range n) (cast maxt)
 
+/-! ## from the image: the histogram is the only summary used -/
+
+/-- the histogram handed to the kernels: `fullhistogram(img)`, bin 0 cleared when zeros are ignored -/
+def histOf (img : List Nat) (ignoreZeros : Bool) : List Nat :=
+  let h := (fullhistogram img).toList
+  if ignoreZeros then h.set 0 0 else h
+
+/-- `mahotas.otsu(img, ignore_zeros)` on the pixels in C order -/
+def otsuImg (cast : Nat → α) (img : List Nat) (ignoreZeros : Bool) : Nat :=
+  otsuGen cast (histOf img ignoreZeros)
+
+/-- `mahotas.rc(img, ignore_zeros)`; `if hist[0] == img.size: return 0` when zeros are ignored -/
+def rcImg (cast : Nat → α) (img : List Nat) (ignoreZeros : Bool) : α :=
+  if ignoreZeros && (fullhistogram img).getD 0 0 == img.length then cast 0
+  else rcGen cast (histOf img ignoreZeros)
+
 /-! ## soft threshold -/
 
 /-- `f = f*(|f| > t); f -= t*(f > t); f += t*(f < -t)` for one element -/
@@ -217,25 +233,23 @@ def handle (a : Args) : String :=
     s!"hist={showNats (fullhistogram (natsOf a "data")).toList}"
   | "otsu" =>
     -- data = pixels; iz = ignore_zeros; got = the threshold the implementation returned
-    let hist0 := (fullhistogram (natsOf a "data")).toList
-    let hist := if a.nat "iz" == 1 then hist0.set 0 0 else hist0
+    let pix := natsOf a "data"
+    let iz := a.nat "iz" == 1
+    let hist := histOf pix iz
     let sig := sigmaAll hist
     let got := a.nat "got"
-    let exact := if hist.length ≤ 4096 then toString (otsuGen ratCast hist) else "skipped"
-    s!"model={otsuGen floatCast hist} exact={exact} first={firstArgmax sig} " ++
+    let exact := if hist.length ≤ 4096 then toString (otsuImg ratCast pix iz) else "skipped"
+    s!"model={otsuImg floatCast pix iz} exact={exact} first={firstArgmax sig} " ++
     s!"smax={ratStr (listMax sig)} sgot={ratStr (sig.getD got (-1))} n={hist.length}"
   | "rc" =>
     let pix := natsOf a "data"
-    let hist0 := (fullhistogram pix).toList
     let iz := a.nat "iz" == 1
-    let hist := if iz then hist0.set 0 0 else hist0
-    -- `if hist[0] == img.size: return 0`
-    if iz && hist0.headD 0 == pix.length then s!"model={showFloats [0.0]} exact=0/1 spec=0/1 margin=1/1 lo=0 hi=0"
-    else
-      let sp := rcSpec hist
-      let exact := if hist.length ≤ 4096 then ratStr (rcGen ratCast hist) else "skipped"
-      s!"model={showFloats [rcGen floatCast hist]} exact={exact} spec={ratStr sp.1} " ++
-      s!"margin={ratStr sp.2.1} lo={sp.2.2.1} hi={sp.2.2.2}"
+    let hist := histOf pix iz
+    let allZero := iz && (fullhistogram pix).getD 0 0 == pix.length
+    let sp := if allZero then ((0 : Rat), (1 : Rat), 0, 0) else rcSpec hist
+    let exact := if hist.length ≤ 4096 then ratStr (rcImg ratCast pix iz) else "skipped"
+    s!"model={showFloats [rcImg floatCast pix iz]} exact={exact} spec={ratStr sp.1} " ++
+    s!"margin={ratStr sp.2.1} lo={sp.2.2.1} hi={sp.2.2.2}"
   | "soft" =>
     if a.str "dt" == "f64" then
       let t := (a.floats "t").headD 0
